@@ -1059,15 +1059,30 @@ func c09Boxing(p *Prog, r *Report, convs []*ssa.Function) {
 				if !ok || calleeName(el.Common()) != "(reflect.Value).Elem" || el.Referrers() == nil {
 					continue
 				}
-				isSet := false
+				hasSet := false
+				var others []ssa.Instruction
 				for _, r2 := range *el.Referrers() {
+					if _, isDbg := r2.(*ssa.DebugRef); isDbg {
+						continue
+					}
 					if sc, ok := r2.(*ssa.Call); ok && calleeName(sc.Common()) == "(reflect.Value).Set" && sc.Call.Args[0] == ssa.Value(el) {
 						sets = append(sets, sc)
-						isSet = true
+						hasSet = true
+						continue
 					}
+					others = append(others, r2)
 				}
-				if !isSet {
-					reads = append(reads, el)
+				if !hasSet {
+					reads = append(reads, el) // the cell is read where Elem() is taken
+				} else {
+					for _, o := range others {
+						if _, isPhi := o.(*ssa.Phi); !isPhi {
+							reads = append(reads, o)
+						}
+					}
+					if len(others) > 0 && len(reads) == 0 {
+						reads = append(reads, el) // the same Elem() value is set and handed on: read position = where it was taken, judged below
+					}
 				}
 			}
 			okSet := len(sets) > 0 && len(reads) > 0
@@ -1080,6 +1095,18 @@ func c09Boxing(p *Prog, r *Report, convs []*ssa.Function) {
 				return false
 			}
 			for _, rd := range reads {
+				if rc, isCall := rd.(*ssa.Call); isCall && calleeName(rc.Common()) == "(reflect.Value).Elem" {
+					// an Elem() value that is itself Set afterwards holds the value (a reflect.Value is a handle on the cell)
+					selfSet := false
+					for _, st := range sets {
+						if st.(*ssa.Call).Call.Args[0] == ssa.Value(rc) {
+							selfSet = true
+						}
+					}
+					if selfSet {
+						continue
+					}
+				}
 				if !passedBefore(f, rd, isSetI, nil) {
 					okSet = false
 				}
